@@ -129,7 +129,9 @@ func (mach *unmarshalMachinePrimitive) Step(_ *Unmarshaller, _ *unmarshalSlab, t
 	case reflect.Slice: // implicitly bytes; no other slices are "primitive"
 		switch tok.Type {
 		case TBytes:
-			mach.rv.SetBytes(tok.Bytes)
+			// Copy: the token's slice may alias memory owned by whoever produced the token
+			// (a marshaller walking another live object, as in Clone; or a decoder's buffer).
+			mach.rv.SetBytes(append(make([]byte, 0, len(tok.Bytes)), tok.Bytes...))
 			return true, nil
 		case TNull:
 			mach.rv.SetBytes(nil)
@@ -165,7 +167,7 @@ func (mach *unmarshalMachinePrimitive) Step(_ *Unmarshaller, _ *unmarshalSlab, t
 		case TString:
 			mach.rv.Set(reflect.ValueOf(tok.Str))
 		case TBytes:
-			mach.rv.Set(reflect.ValueOf(tok.Bytes))
+			mach.rv.Set(reflect.ValueOf(append(make([]byte, 0, len(tok.Bytes)), tok.Bytes...))) // copy, as above
 		case TBool:
 			mach.rv.Set(reflect.ValueOf(tok.Bool))
 		case TInt:
